@@ -383,7 +383,20 @@ def check(run, prog, tier):
                    f"{tgt.name} is the target of {e.attrname} in {fi.qual} and re-checks the running state before it transmits" if unguarded is None else
                    (f"{tgt.name} is scheduled with {e.attrname} by {fi.qual} but transmits a TTL>0 offer without looking at the running state when it "
                     "finally runs: a stop() between scheduling and execution is followed by an Offer after the StopOffer"))
-    run.floor("O4", n4, 1)
+    # ... and nobody else builds offers for an instance: an Offer entry (create_offer_entry) is made only by the instance's
+    # own sender, which is the place that looks at the running state.  A second builder (an answer assembled by the
+    # announcer, a batch) sends TTL>0 offers of instances that have been stopped in the meantime.
+    coe = prog.lookup_method("config.Service", "create_offer_entry")
+    so = prog.lookup_method(INST, "_send_offer")
+    builders = sorted({fi_.qual for fi_, r_, e_ in scan.callers_of(coe.qual) if fi_.module.short == "sd"}) if coe is not None else []
+    # (config.Eventgroup.for_service builds one to ask matches_offer; it is never transmitted)
+    okb = so is not None and builders == [so.qual]
+    run.ob("O4", f"{INST}:offers-built-only-by-the-guarded-sender", okb, loc(so or ot),
+           f"create_offer_entry is called by {builders}" + ("" if okb else
+           f": an offer built outside {INST.split('.')[-1]}._send_offer is sent without its running-state check - a stop() between a FindService "
+           "and its (delayed) answer is followed by an Offer after the StopOffer"))
+    if okb:
+        run.floor("O4", n4, 1)
 
     # ================================================================== O5 guarded stop calls
     n5 = 0
